@@ -321,11 +321,13 @@ Definition dead_db (w : world) : wdb := mkW (db_new (g_mem w) (g_walmax w)) 0 Ow
 Definition add_db (w : world) (x : wdb) (usedfresh : bool) : world :=
   mkWorld (g_fs w) (g_dbs w ++ [x]) (g_handles w) (if usedfresh then g_nextdir w + 1 else g_nextdir w) (g_mem w) (g_walmax w) (g_dropped w).
 
-Definition write_op (w : world) (d : N) (k : bytes) (del : bool) (v : bytes) : world * bool :=
+(* a write with the OBSERVED rotation decision [rot]; the second component is what the size rules of Model/Ckpt.v would have decided
+   (information only: when a buffer counts as full is not part of any property here) *)
+Definition write_op (w : world) (d : N) (k : bytes) (del : bool) (v : bytes) (rot : bool) : world * bool :=
   match get_db w d with
   | Some x => if is_live x then
-                let '(c, r) := db_write (x_core x) k del v in
-                (set_db w d (after_rotations (with_core x c) (if r then 1%nat else 0%nat)), r)
+                let c := db_write_at (x_core x) k del v rot in
+                (set_db w d (after_rotations (with_core x c) (if rot then 1%nat else 0%nat)), snd (db_write (x_core x) k del v))
               else (w, false)
   | None => (w, false)
   end.
@@ -385,8 +387,8 @@ Definition retain_ok (w : world) (d : N) (ids : list N) (f : N) : bool :=
 
 Fixpoint step (w : world) (o : op) : world :=
   match o with
-  | OPut d k v _ => fst (write_op w d k false v)
-  | ODel d k _ => fst (write_op w d k true [])
+  | OPut d k v rot => fst (write_op w d k false v rot)
+  | ODel d k rot => fst (write_op w d k true [] rot)
   | OCkpt d id =>
       match get_db w d with
       | Some x =>
